@@ -580,6 +580,8 @@ def check_current_bounds(ctx: Ctx) -> None:
     view = c02.View(ctx, ds)
     c02.check_protocols(_Prefixed(ctx, "14.8-current-bounds/"), view)
     c02.check_norm_cache(_Prefixed(ctx, "14.8-current-bounds/"), view)
+    # ... and the image itself: the affine map and the rounding of the integer components (rule group 2.7)
+    c02.check_affine_ops(_Prefixed(ctx, "14.9-image-map/"), view)
 
 
 def run(ctx: Ctx) -> None:
